@@ -148,21 +148,55 @@ def shard_long(shard):
     return st.result([drv])
 
 
+def spec_kind(b):
+    """the partition of bytes the LANGUAGE makes inside literals (not the scanner's): bytes of one kind play the same role in
+    every rule of the statement"""
+    c = chr(b)
+    if c in 'ntrbfaev':
+        return 'escape-letter-' + c            # each stands for its own control character
+    if c == 'x':
+        return 'hex-escape-letter'
+    if c in '01234567':
+        return 'octal-digit'
+    if c in '89':
+        return 'decimal-digit'
+    if c in 'cd':
+        return 'hex-letter-lower'              # a b e f are escape letters as well
+    if c in 'ABCDEF':
+        return 'hex-letter-upper'
+    if 'a' <= c <= 'z':
+        return 'lower'
+    if 'A' <= c <= 'Z':
+        return 'upper'
+    if b >= 0x80:
+        return 'high'
+    if b < 0x20 or b == 0x7F:
+        return 'control-%02x' % b if b in (0x09, 0x0A, 0x0B, 0x0C, 0x0D) else 'control'
+    if c in '"\'\\${}:-#/*=+,() ':
+        return 'punct-' + c                    # characters with a role somewhere in the language: each its own kind
+    return 'punct-ordinary'
+
+
 def ext_classes():
-    """CLASSES plus one representative of every equivalence class of the generated scanner that CLASSES misses (bytes of one
-    class are indistinguishable to the scanner in every start condition; recomputed from the build, so a scanner that starts
-    to treat another byte specially gets that byte into the alphabet)"""
+    """CLASSES plus one representative of every cell of the common refinement of two partitions of the bytes: the equivalence
+    classes of the generated scanner (bytes of one class are indistinguishable to the scanner in every start condition;
+    recomputed from the build, so a scanner that starts to treat another byte specially gets that byte into the alphabet) and
+    the kinds the language itself distinguishes (so a scanner that starts to treat two bytes ALIKE that the language keeps
+    apart - upper-case X with the hex escape letter x - gets both into the alphabet as well)"""
     import json
     ec = json.load(open(os.path.join(engine.BUILD, 'asan', 'yy_ec.json')))['classes']
     have = set(c[0] for c in CLASSES)
     ext, added = list(CLASSES), []
     for cls, members in sorted(ec.items(), key=lambda kv: int(kv[0])):
-        if not any(m in have for m in members):
-            rep = [m for m in members if m != 0]
-            if rep:
-                ext.append(bytes([rep[0]]))
-                have.add(rep[0])
-                added.append(rep[0])
+        cells = {}
+        for m in members:
+            if m != 0:
+                cells.setdefault(spec_kind(m), []).append(m)
+        for kind, ms in sorted(cells.items()):
+            if not any(m in have for m in ms):
+                ext.append(bytes([ms[0]]))
+                have.add(ms[0])
+                added.append(ms[0])
     return ext, added
 
 
